@@ -222,9 +222,13 @@ def classify(hname, hspec, rc, timed_out, parsed, logtext):
         if "memory" in logtext.lower() and "out of" in logtext.lower():
             return "INCONCLUSIVE", "out of memory"
         return "INCONCLUSIVE", "tool error (no verdict; harness did not build or CBMC died)"
+    must = hspec.get("must_fail_with")
     bad_status = [c for c in parsed["checks"] if c["status"] in ("ERROR", "UNDETERMINED")]
     failed = [c for c in parsed["checks"] if c["status"] == "FAILURE"]
     unsat_cov = [c for c in parsed["checks"] if c["status"] == "UNSATISFIABLE"]
+    unwinding = [c for c in failed if "unwinding assertion" in c["description"]]
+    if unwinding and kind != "reach" and not must:
+        return "INCONCLUSIVE", "unwinding bound too small for this tree (loop may run longer than the harness allows): " + unwinding[0]["name"][:120]
     unsupported = [c for c in failed if "not currently supported by Kani" in c["description"]]
     if unsupported:
         return "INCONCLUSIVE", "code uses a construct Kani cannot encode: " + unsupported[0]["description"][:120]
